@@ -832,3 +832,23 @@ func ScanBlocks(fn *ssa.Function) []*ssa.BasicBlock {
 	}
 	return out
 }
+
+// ResolveHelperParam follows a parameter of a single-call-site unexported helper to the argument passed at that site
+// (repeatedly); other values are returned unchanged. Only meaningful in InlineHelpers mode.
+func ResolveHelperParam(v ssa.Value) ssa.Value {
+	if !InlineHelpers || helperArg == nil {
+		return v
+	}
+	for k := 0; k < 4; k++ {
+		pv, ok := v.(*ssa.Parameter)
+		if !ok {
+			return v
+		}
+		a := helperArg(pv)
+		if a == nil {
+			return v
+		}
+		v = a
+	}
+	return v
+}
